@@ -236,6 +236,40 @@ def recipe_instr_oracle(prog, rg, out, rec):
             tmp = []
             check_amount(F(Decimal(m.group(1))), m.group(2), true, f"the {sd['name']} added by recipe step {k} ({st['op']})", tmp, k)
             fails += [t for _, t in tmp]
+        if st['op'] == 'fill' and 'p' in st['t']:
+            # "... by adding: 70.0 uL to [A1:A3], 90.0 uL to [B1], ...": every well's own amount, each well listed once
+            name = st['t']['p']
+            sd = byid[st['solvent']]
+            before = recipes.ledger_state(rg.initial, H, k - 1, name)
+            after = recipes.ledger_state(rg.initial, H, k, name)
+            nc = after['cols']
+            stated = {}
+            for m in re.finditer(AMOUNT + r" to \[([^\]]*)\]", step.instructions):
+                v, u = F(Decimal(m.group(1))), m.group(2)
+                for item in m.group(3).split(', '):
+                    ends = [re.match(r"([A-Z])(\d+)$", x) for x in item.split(':')]
+                    if not all(ends):
+                        fails.append(f"step {k}: cannot read the wells {item!r} in {step.instructions!r}")
+                        continue
+                    (r0, c0), (r1, c1) = [(ord(e.group(1)) - 65, int(e.group(2)) - 1) for e in (ends[0], ends[-1])]
+                    cells = [(r0, c) for c in range(c0, c1 + 1)] if r0 == r1 else [(r, c0) for r in range(r0, r1 + 1)] if c0 == c1 else None
+                    if cells is None:
+                        fails.append(f"step {k}: {item!r} is neither a run along a row nor down a column")
+                        continue
+                    for cell in cells:
+                        stated.setdefault(cell, []).append((v, u))
+            for j, (wb, wa) in enumerate(zip(before['wells'], after['wells'])):
+                cell = (j // nc, j % nc)
+                true = histcheck.amount_in(sd, wa['cont'].get(sd['id'], F(0)) - wb['cont'].get(sd['id'], F(0)), 'L')
+                got = stated.get(cell, [])
+                if len(got) > 1:
+                    fails.append(f"step {k}: well {cell} is listed {len(got)} times with amounts {[(float(v), u) for v, u in got]} in {step.instructions[:160]!r}")
+                elif got:
+                    tmp = []
+                    check_amount(got[0][0], got[0][1], true, f"the {sd['name']} added to well {cell} by recipe step {k} (fill_to on a plate)", tmp, k)
+                    fails += [x for _, x in tmp]
+                elif true * 10**6 > F(1):        # more than a microlitre was added and the line does not mention the well
+                    fails.append(f"step {k}: {float(true * 10**6)!r} uL were added to well {cell}, which the instruction does not list: {step.instructions[:160]!r}")
     return fails
 
 
